@@ -26,6 +26,9 @@ type multiFetcher struct {
 	//
 	// Used to identify which fetcher to get the rest of the fields from in `GetFields`.
 	currentFetcherIndex int
+
+	// True if the last document returned from `NextDoc` has not had its fields fetched.
+	yieldedNotFetched bool
 }
 
 var _ fetcher = (*multiFetcher)(nil)
@@ -55,6 +58,13 @@ type fetcherDocID struct {
 }
 
 func (f *multiFetcher) NextDoc() (immutable.Option[string], error) {
+	if f.yieldedNotFetched {
+		// The caller asked for the next document without fetching the fields of the last one,
+		// it skipped it (e.g. for lack of permission). It must not be yielded again.
+		f.children[f.currentFetcherIndex].docID = immutable.None[string]()
+		f.yieldedNotFetched = false
+	}
+
 	selectedFetcherIndex := -1
 	var selectedDocID immutable.Option[string]
 
@@ -90,6 +100,7 @@ func (f *multiFetcher) NextDoc() (immutable.Option[string], error) {
 	}
 
 	f.currentFetcherIndex = selectedFetcherIndex
+	f.yieldedNotFetched = selectedDocID.HasValue()
 	return selectedDocID, nil
 }
 
@@ -100,6 +111,7 @@ func (f *multiFetcher) GetFields() (immutable.Option[EncodedDocument], error) {
 	}
 
 	f.children[f.currentFetcherIndex].docID = immutable.None[string]()
+	f.yieldedNotFetched = false
 
 	return doc, nil
 }
